@@ -332,7 +332,10 @@ class Fn:
                 lit = ""
         while i < len(fmt):
             c = fmt[i]
-            if c == "{":
+            if c == "{" and fmt[i:i + 2] == "{{":
+                lit += "{"
+                i += 2
+            elif c == "{":
                 j = fmt.index("}", i)
                 piece = fmt[i + 1:j]
                 flush()
@@ -341,7 +344,7 @@ class Fn:
                 val = self.ex(a0, env) if name == "" else self.var(name) if name in env else None
                 if val is None:
                     raise Unsupported("format! captures the unknown name %s" % name)
-                if spec_ == "" and a0 is not None and self.ty(a0, env) in INTS:
+                if spec_ == "" and ((a0 is not None and self.ty(a0, env) in INTS) or (a0 is None and env.get(name) in INTS)):
                     if not self.spec.get("format_int"):
                         raise Unsupported("format! of an integer")
                     parts.append(self.apply(self.spec["format_int"], [val]))
@@ -352,11 +355,11 @@ class Fn:
                 else:
                     raise Unsupported("format! piece {%s}" % piece)
                 i = j + 1
-            elif c == "\\" and i + 1 < len(fmt) and fmt[i + 1] == "0":
-                lit += "\0"
+            elif c == "\\":
+                lit += rust_unescape(fmt[i:i + 2])
                 i += 2
-            elif c == "\\" and i + 1 < len(fmt) and fmt[i + 1] in ('"', "\\"):
-                lit += fmt[i + 1]
+            elif c == "}" and fmt[i:i + 2] == "}}":
+                lit += "}"
                 i += 2
             else:
                 lit += c
@@ -520,6 +523,9 @@ class Fn:
             if name == "unwrap_or" and len(args) == 1 and re.match(r"Option<(.*)>$", self.ty(recv, env) or ""):
                 v = self.fresh("v")
                 return "(match %s with Some %s => %s | None => %s end)" % (self.ex(recv, env), v, v, self.ex(args[0], env))
+            if name == "replace" and len(args) == 2 and args[0][0] == "char" and args[1][0] == "str" and self.spec.get("format_bytes") is not None:
+                lit = rust_unescape(args[1][1][1:-1] if args[1][1].startswith('"') else args[1][1])
+                return "(replace_char %s [%s] %s)" % (args[0][1], "; ".join(str(b) for b in lit.encode()), self.ex(recv, env))
             if name == "strip_prefix" and len(args) == 1 and args[0][0] == "str":
                 lit = args[0][1].strip('"')
                 return "(strip_prefix_lit [%s] %s)" % ("; ".join(str(ord(c)) for c in lit), self.ex(recv, env))
@@ -1281,6 +1287,23 @@ class Fn:
 
 
 MUTATORS = ("push", "sort", "sort_unstable", "dedup")
+
+
+def rust_unescape(body):
+    """the characters of a Rust string literal's body (between the quotes)"""
+    out, i = "", 0
+    esc = {"n": "\n", "t": "\t", "r": "\r", "0": "\0", "\\": "\\", "'": "'", '"': '"'}
+    while i < len(body):
+        c = body[i]
+        if c == "\\" and i + 1 < len(body) and body[i + 1] in esc:
+            out += esc[body[i + 1]]
+            i += 2
+        elif c == "\\":
+            raise Unsupported("string escape \\%s" % body[i + 1:i + 2])
+        else:
+            out += c
+            i += 1
+    return out
 
 
 class Ctx:
@@ -2500,6 +2523,31 @@ def functions():
         return "Definition g_push_delete_request (remote_root : list Z) (dels : list (list Z)) : list Z * list Z :=\n  %s." % text
     out.append(("push_delete_request", "src/bin/copia/incremental.rs apply_remote_deletes (push arm: list and command)", None, t_push_delete_request))
 
+    def t_push_command():
+        src = read("src/bin/copia/transfer.rs")
+        params, ret, body = R.find_fn(src, "transfer_file_to_remote", None)
+        if [n for n, _ in params] != ["local_path", "host", "remote_path", "mtime"]:
+            raise Unsupported("signature of transfer_file_to_remote is %s" % params)
+        lets = [st for st in body[1] if st[0] == "let" and st[1][0] == "pbind" and st[1][1] in ("escaped", "tmp_escaped", "touch")]
+        if [st[1][1] for st in lets] != ["escaped", "tmp_escaped", "touch"]:
+            raise Unsupported("transfer_file_to_remote: expected `let escaped`, `let tmp_escaped`, `let touch` in this order")
+        cmds = []
+        def walk(n):
+            if isinstance(n, tuple) and len(n) == 3 and n[0] == "macro" and n[1] == "format" and n[2] and n[2][0][0] == "str" and n[2][0][1].lstrip('"').startswith("cat > "):
+                cmds.append(n)
+            if isinstance(n, (list, tuple)):
+                for c in n:
+                    walk(c)
+        walk(body)
+        if len(cmds) != 1:
+            raise Unsupported("transfer_file_to_remote: the remote command `cat > .. && [ .. -eq .. ] && mv -f ..` was not found")
+        spec = dict(format_bytes={"02x": "hex2 {0}"}, format_int="dec_signed {0}", calls={"String::new": ("(@nil Z)", "String")})
+        fn = Fn(spec)
+        env = {"remote_path": "str", "mtime": "Option<i64>", "file_size": "u64"}
+        text = fn.block(("block", lets, cmds[0]), env, Ctx(val=(lambda x: x), ret=(lambda x: x), fall=None))
+        return "Definition g_push_command (remote_path : list Z) (file_size : Z) (mtime : option Z) : list Z :=\n  %s." % text
+    out.append(("push_command", "src/bin/copia/transfer.rs transfer_file_to_remote (the remote command)", None, t_push_command))
+
     def t_run_remote():
         src = read("src/bin/copia/incremental.rs")
         params, ret, body = R.find_fn(src, "run_remote", None)
@@ -2599,6 +2647,7 @@ GROUPS = {
     "ListingParse": ("Model.Glob Model.Plan Model.Listing", "listingparse", ["parse_listing"]),
     "OneWayPrint": ("Model.Glob Model.Plan Model.OneWay", "onewayprint", ["print_plan", "report"]),
     "PushDelete": ("Model.Glob Model.Plan Model.Listing Model.ShellQuote", "plainz", ["push_delete_request"]),
+    "PushCommand": ("Model.Glob Model.Plan Model.Listing Model.ShellQuote", "pushcommand", ["push_command"]),
     "RemoteRun": ("Model.Glob Model.Plan Model.OneWay", "remoterun", ["run_remote"]),
     "Archive": ("Model.Archive", "archive", ["archive_load"]),
     "Plan": ("Model.Glob Model.Plan", False, ["needs_transfer", "glob_match", "is_excluded", "build_plan"]),
@@ -2779,6 +2828,11 @@ def main():
                      "Fixpoint al_find (k : Z) (m : list (Z * list Z)) : option (list Z) :=\n  match m with [] => None | (k', vs) :: r => if k' =? k then Some vs else al_find k r end.\n"
                      "Definition nth_blk (l : list (bsig digest)) (i : Z) : bsig digest := nth (Z.to_nat i) l (Build_bsig digest 0 0 (H [])).\n\n"
                      + "\n".join(texts) + "End WithDigest.\n")
+        elif digest == "pushcommand":
+            body += ("\n(* `s.replace(c, lit)`: every occurrence of the character c replaced by the bytes lit *)\n"
+                     "Definition replace_char (c : Z) (lit s : list Z) : list Z := flat_map (fun x => if x =? c then lit else [x]) s.\n"
+                     "(* `{t}` for an i64: a minus sign for a negative number, then the decimal digits *)\n"
+                     "Definition dec_signed (n : Z) : list Z := if n <? 0 then 45 :: dec (- n) else dec n.\n\n" + "\n".join(texts))
         elif digest == "plainz":
             body += "\n" + "\n".join(texts)
         elif digest == "archivesys":
